@@ -86,9 +86,9 @@ def run(f, fixture, rep, cfg, tier):
     rep.rule("R3", "non-SHA-256 payload digest algorithm -> error")
     rep.rule("R4", "closed set of error exits")
     rep.rule("R5", "DigestAlgorithm numbering = OpenPGP hash ids")
-    rep.rule("R6", "the header bytes that are hashed are the bytes that were read (see C01.R7)")
-    from c01 import check_wire_write_once
-    check_wire_write_once(f, rep, "R6")
+    rep.rule("R6", "the header bytes that are hashed are the bytes that were read (C01: parse then write reproduces the header)")
+    # verify_digests hashes ser(parse(bytes)), not the bytes: every clause of the round-trip property is a clause of this one
+    rep.include("c01", f, fixture, cfg, tier, "R6", "header round trip (the digest is computed over the re-serialised header)", floor=30)
 
     b = f.one("Package::verify_digests")
     tb = TermBuilder(b)
